@@ -94,6 +94,13 @@ THEOREMS = [
     "Verif.C13.M.params_nodup",
     "Verif.C13.tree_derivative_sound",
     "Verif.C13.leaf_der_ok",
+    "Verif.C13.groupConditions_perm",
+    "Verif.C13.groupConditions_same_key",
+    "Verif.C13.fitJacobian_shape",
+    "Verif.C13.tree_jacobian_sound",
+    "Verif.C13.leaf_jac_ok",
+    "Verif.C13.leaf_jac_ok_cubic",
+    "Verif.C13.demo_tree_hypotheses",
     "Verif.C13.OF.jac_Lp_hasDerivAt",
     "Verif.C13.OF.jac_Lc_hasDerivAt",
     "Verif.C13.OF.jac_St_hasDerivAt",
